@@ -66,6 +66,7 @@ LEVEL_NOTE = ("Trusted: CPython, the DEFAULT_STYLES table data, Style.parse as t
 
 MAXHEIGHT = 5
 QUICK_DEPTH = 4
+QUICK_BOTH_MODES_DEPTH = 2      # quick: histories of <= 3 events are also run without intermediate lookups
 
 # ------------------------------------------------------------------ reference vocabulary
 R = RefStyle
@@ -143,9 +144,10 @@ class RefStack:
     inherit flag, owned by a use_theme block); a name resolves to the top-most level that
     defines it, looking below a level only if that level was pushed with inherit=True."""
 
-    __slots__ = ("levels",)
+    __slots__ = ("levels", "maxh")
 
-    def __init__(self, base=None, levels=None):
+    def __init__(self, base=None, levels=None, maxh=1):
+        self.maxh = maxh          # greatest height this history has been at (= depths looked up so far)
         if levels is not None:
             self.levels = levels
             return
@@ -155,7 +157,7 @@ class RefStack:
         self._add(own, hasdef, False, False)
 
     def copy(self):
-        return RefStack(levels=list(self.levels))
+        return RefStack(levels=list(self.levels), maxh=self.maxh)
 
     @property
     def height(self):
@@ -173,6 +175,8 @@ class RefStack:
         kind = ev[0]
         if kind in ("push", "enter"):
             self._add(THEMES[ev[1]], ev[2], ev[3], kind == "enter")
+            if len(self.levels) > self.maxh:
+                self.maxh = len(self.levels)
         elif len(self.levels) > 1:
             self.levels.pop()
 
@@ -231,7 +235,10 @@ class RefStack:
         return "".join(out)
 
     def canon(self):
-        return tuple((lv[4], lv[3]) for lv in self.levels)
+        return (tuple((lv[4], lv[3]) for lv in self.levels), self.maxh)
+
+    def level1(self):
+        return (self.levels[1][4], self.levels[1][3])
 
 
 def _enabled(ref, maxheight):
@@ -259,7 +266,7 @@ def _style_arg(d):
         st = _STYLE_OBJS.get(d)
         if st is None:
             from rich.style import Style
-            st = _STYLE_OBJS[d] = Style(**OBJ_ROUTE[d])     # immutable value; the Theme around it is fresh every time
+            st = _STYLE_OBJS[d] = Style(**OBJ_ROUTE[d])     # immutable value; the Theme around it is fresh per history
         return st
     return d
 
@@ -270,21 +277,44 @@ def _theme(defs, inherit):
 
 
 class Impl:
+    """One session: a fresh Console and ONE Theme object per theme id for the whole history (a
+    program keeps its Theme objects and pushes them again and again)."""
+
     def __init__(self, base):
         from rich.console import Console
+        self.themes = {}            # id -> (Theme, copy of its .styles taken at construction)
         b = BASES[base]
         self.console = Console(file=io.StringIO(), width=80, height=25, force_terminal=False, color_system=None,
-                               legacy_windows=False, _environ={}, theme=None if b is None else _theme(*b))
+                               legacy_windows=False, _environ={},
+                               theme=None if b is None else self.theme(base, b[0], b[1]))
         self.blocks = []
+
+    def theme(self, tid, defs, inherit):
+        hit = self.themes.get((tid, inherit))
+        if hit is None:
+            t = _theme(defs, inherit)
+            hit = self.themes[(tid, inherit)] = (t, dict(t.styles))
+        return hit[0]
+
+    def modified_themes(self):
+        """ids of Theme objects whose own .styles mapping is not what it was when constructed"""
+        bad = []
+        for key, (t, snap) in self.themes.items():
+            cur = t.styles
+            if len(cur) != len(snap) or cur != snap:      # dict == compares values identity-first, at C speed
+                bad.append("%s(inherit=%s): %d names -> %d; changed %r" % (
+                    key[0], key[1], len(snap), len(cur),
+                    sorted(n for n in set(cur) | set(snap) if cur.get(n) is not snap.get(n))[:4]))
+        return bad
 
     def apply(self, ev):
         """Executes one event; returns the exception it raised or None."""
         kind = ev[0]
         try:
             if kind == "push":
-                self.console.push_theme(_theme(THEMES[ev[1]], ev[2]), inherit=ev[3])
+                self.console.push_theme(self.theme(ev[1], THEMES[ev[1]], ev[2]), inherit=ev[3])
             elif kind == "enter":
-                cm = self.console.use_theme(_theme(THEMES[ev[1]], ev[2]), inherit=ev[3])
+                cm = self.console.use_theme(self.theme(ev[1], THEMES[ev[1]], ev[2]), inherit=ev[3])
                 cm.__enter__()
                 self.blocks.append(cm)
             elif kind == "pop":
@@ -342,6 +372,31 @@ def observe(console):
     return tuple(_lookup(console, n, d) for n, d in PROBES)
 
 
+def touch(console):
+    """the same lookups as observe(), results dropped: what a session does between two theme
+    operations (it prints); run after every event of a replayed prefix"""
+    get = console.get_style
+    for n, d in PROBES:
+        try:
+            get(n) if d is None else get(n, default=d)
+        except Exception:
+            pass
+
+
+def execute(base, hist, ev, lookups=True):
+    """Fresh session, replay `hist` (with the probe lookups after every step, or with none),
+    then `ev`. -> (impl, exception of ev, observation after ev)"""
+    impl = Impl(base)
+    if lookups:
+        touch(impl.console)
+    for e in hist:
+        impl.apply(e)
+        if lookups:
+            touch(impl.console)
+    exc = impl.apply(ev)
+    return impl, exc, observe(impl.console)
+
+
 def _crash_key(e):
     import traceback
     where = "?"
@@ -384,7 +439,7 @@ def _classify(ev, ref_after, obs, exp):
     return "mismatch"
 
 
-def judge(ev, ref_before, ref_after, exc, obs, cur_obs, obs_stack):
+def judge(ev, ref_before, ref_after, exc, obs, cur_obs, obs_stack, modified=()):
     """-> list of (finding key, detail) for one executed transition."""
     kind = ev[0]
     name = EVNAME[kind]
@@ -400,6 +455,8 @@ def judge(ev, ref_before, ref_after, exc, obs, cur_obs, obs_stack):
         return out
     if exc is not None:
         return [(_crash_key(exc), "%s raised %r" % (name, exc))]
+    if modified:
+        return [(name + "/theme-object-modified", "the Theme object's own styles changed: " + "; ".join(modified))]
     if kind in ("pop", "exit", "exit_exc") and obs != obs_stack[-1]:
         return [(name + "/not-restored", "lookups differ from those before the matching push: " + _diff(obs, obs_stack[-1]))]
     exp = ref_after.expected()
@@ -441,35 +498,49 @@ def _evjson(hist):
     return [list(e) for e in hist]
 
 
-def check_history(base, hist):
-    """Replays a whole history judging every step. -> list of (key, detail). Used by replay()."""
+def _walk(base, hist):
+    """One session stepping through `hist` with the probe lookups (and the judgement) after every
+    event -- the very calls execute(lookups=True) makes. -> (problems, ref, cur obs, obs stack, impl)"""
     impl, ref = Impl(base), RefStack(base)
     cur = observe(impl.console)
     exp = ref.expected()
     if cur != exp:
-        return [("initial/" + _classify(None, ref, cur, exp), _diff(cur, exp))]
-    bad = sweep(impl.console, ref)
-    if bad:
-        return [("sweep/lookup-mismatch", "; ".join(bad[:5]))]
-    stack = []
+        return [("initial/" + _classify(None, ref, cur, exp), _diff(cur, exp))], ref, cur, (), impl
+    stack = ()
     for ev in hist:
         ev = tuple(ev)
         ref2 = ref.copy()
         ref2.apply(ev)
         exc = impl.apply(ev)
         obs = observe(impl.console)
-        probs = judge(ev, ref, ref2, exc, obs, cur, stack)
+        probs = judge(ev, ref, ref2, exc, obs, cur, stack, impl.modified_themes())
+        if probs:
+            return probs, ref2, obs, stack, impl
+        if ev[0] in ("push", "enter"):
+            stack = stack + (cur,)
+        elif ref.height > 1:
+            stack = stack[:-1]
+        cur, ref = obs, ref2
+    return [], ref, cur, stack, impl
+
+
+def check_history(base, hist, lookups=True):
+    """Re-executes one case the way the BFS executed it. -> list of (key, detail). Used by replay()."""
+    hist = [tuple(e) for e in hist]
+    if lookups or not hist:
+        probs, ref, _cur, _stack, impl = _walk(base, hist)
         if probs:
             return probs
-        bad = sweep(impl.console, ref2)
-        if bad:
-            return [("sweep/lookup-mismatch", "after %r: %s" % (ev, "; ".join(bad[:5])))]
-        if ev[0] in ("push", "enter"):
-            stack.append(cur)
-        elif ref.height > 1:
-            stack.pop()
-        cur, ref = obs, ref2
-    return []
+        bad = sweep(impl.console, ref)
+        return [("sweep/lookup-mismatch", "; ".join(bad[:5]))] if bad else []
+    probs, ref, cur, stack, _impl = _walk(base, hist[:-1])
+    if probs:
+        return probs
+    ev = hist[-1]
+    ref2 = ref.copy()
+    ref2.apply(ev)
+    impl, exc, obs = execute(base, hist[:-1], ev, lookups=False)
+    return judge(ev, ref, ref2, exc, obs, cur, stack, impl.modified_themes())
 
 
 # ------------------------------------------------------------------ BFS
@@ -483,50 +554,57 @@ def _bfs(sh, tier, res):
     maxdepth = QUICK_DEPTH if tier == "quick" else None
     is_root_shard = not root
     case0 = {"part": "stack", "base": base}
-
-    # materialise the shard's root state
-    impl, ref = Impl(base), RefStack(base)
-    cur = observe(impl.console)
-    stack = ()
     mute = False
+    seen = set()
+    frontier = collections.deque()
+    maxd = 0
+
+    def admit(hist, ref, cur, stack, impl):
+        seen.add((ref.canon(), cur, impl.fingerprint()))
+        frontier.append((list(hist), cur, stack))
+
+    # materialise the states this shard starts from
+    probs, ref, cur, stack, impl = _walk(base, root)
     if is_root_shard:
         res.evaluations += 1
-        exp = ref.expected()
         res.sig(("initial", base), nontrivial=False)
         # A wrong initial state is reported once; the transitions out of it are still executed
         # (and counted) but what they show is a consequence, so they add no further keys.
-        if cur != exp:
-            res.violate("initial/" + _classify(None, ref, cur, exp), dict(case0, history=[]), _diff(cur, exp))
+        if probs:
+            for key, detail in probs:
+                res.violate(key, dict(case0, history=[]), detail)
             mute = True
         else:
             bad = sweep(impl.console, ref)
             if bad:
                 res.violate("sweep/lookup-mismatch", dict(case0, history=[]), "; ".join(bad[:5]))
                 mute = True
+        admit(root, ref, cur, stack, impl)
+        # the base with nothing pushed, after the session has been up to height k and back: these are
+        # the only states no level-1 shard owns
+        for k in range(2, MAXHEIGHT + 1):
+            hk = [PUSHES[0]] * (k - 1) + [("pop",)] * (k - 1)
+            if mute or (maxdepth is not None and len(hk) > maxdepth):
+                break
+            probs, ref, cur, stack, impl = _walk(base, hk)
+            if probs:
+                res.count("subtrees_not_expanded_after_violation")     # reported by the shard owning [PUSHES[0]]
+                break
+            admit(hk, ref, cur, stack, impl)
+            maxd = max(maxd, len(hk))
     else:
-        if cur != ref.expected():
-            res.count("subtrees_not_expanded_after_violation")       # reported by the root shard
+        if probs:
+            res.count("subtrees_not_expanded_after_violation")         # reported by the root shard
             return
-        for ev in root:
-            ref2 = ref.copy()
-            ref2.apply(ev)
-            exc = impl.apply(ev)
-            obs = observe(impl.console)
-            if judge(ev, ref, ref2, exc, obs, cur, stack):
-                res.count("subtrees_not_expanded_after_violation")   # reported by the root shard
-                return
-            stack = stack + (cur,)
-            cur, ref = obs, ref2
         bad = sweep(impl.console, ref)
         res.evaluations += 1
         res.count("states_swept")
         if bad:
             res.violate("sweep/lookup-mismatch", dict(case0, history=_evjson(root)), "; ".join(bad[:5]))
             return
-    seen = {(ref.canon(), cur, impl.fingerprint())}
-    frontier = collections.deque([(root, cur, stack)])
+        admit(root, ref, cur, stack, impl)
+        maxd = len(root)
     transitions = 0
-    maxd = len(root)
     while frontier:
         if deadline_passed():
             res.capped = True
@@ -540,25 +618,35 @@ def _bfs(sh, tier, res):
             ref.apply(e)
         if ref.height >= MAXHEIGHT:
             res.count("pushes_not_enabled_by_height_cap", len(PUSHES))
+        both = tier == "thorough" or len(hist) <= QUICK_BOTH_MODES_DEPTH
         for ev in _enabled(ref, MAXHEIGHT):
-            impl = Impl(base)
-            for e in hist:
-                impl.apply(e)
-            exc = impl.apply(ev)
-            obs = observe(impl.console)
             ref2 = ref.copy()
             ref2.apply(ev)
+            h2 = hist + [ev]
+            # (A) the session looked all probes up after every step so far
+            impl, exc, obs = execute(base, hist, ev, lookups=True)
             transitions += 1
             res.evaluations += 1
-            probs = judge(ev, ref, ref2, exc, obs, cur, stack)
+            probs = judge(ev, ref, ref2, exc, obs, cur, stack, impl.modified_themes())
             org = ref2.origins()
             res.sig((ev[0], ref2.height, ev[3] if len(ev) > 1 else None, org),
                     nontrivial=("l" in org or "k" in org or "p" in org or len(ev) == 1))
-            h2 = hist + [ev]
+            case = dict(case0, history=_evjson(h2))
+            # (B) the same history without any lookup before this point
+            if both and not probs:
+                implb, excb, obsb = execute(base, hist, ev, lookups=False)
+                res.evaluations += 1
+                res.count("transitions_without_intermediate_lookups")
+                probs = judge(ev, ref, ref2, excb, obsb, cur, stack, implb.modified_themes())
+                if not probs and implb.fingerprint() != impl.fingerprint():
+                    res.count("fingerprint_differs_between_lookup_modes")
+                if probs:
+                    case = dict(case, lookups=False)
             if probs:
                 if not mute:
                     for key, detail in probs:
-                        res.violate(key, dict(case0, history=_evjson(h2)), "history %r: %s" % (h2, detail))
+                        res.violate(key, case, "history %r%s: %s" % (
+                            h2, "" if "lookups" not in case else " (no lookups before the last event)", detail))
                 res.count("targets_not_expanded_after_violation")
                 continue
             if is_root_shard or ref2.height < 2:
@@ -573,8 +661,7 @@ def _bfs(sh, tier, res):
                 res.evaluations += 1
                 res.count("states_swept")
             if bad:
-                res.violate("sweep/lookup-mismatch", dict(case0, history=_evjson(h2)),
-                            "history %r: %s" % (h2, "; ".join(bad[:5])))
+                res.violate("sweep/lookup-mismatch", case, "history %r: %s" % (h2, "; ".join(bad[:5])))
                 continue
             if ev[0] in ("push", "enter"):
                 st2 = stack + (cur,)
@@ -583,7 +670,7 @@ def _bfs(sh, tier, res):
             frontier.append((h2, obs, st2))
             maxd = max(maxd, len(h2))
             if len(seen) % 4001 == 0:
-                res.sample(dict(case0, history=_evjson(h2)))
+                res.sample(case)
     res.count("states", len(seen))
     res.count("transitions", transitions)
     res.counters["max_depth"] = maxd
@@ -606,7 +693,7 @@ def _stack_shards():
         for ev in PUSHES:
             ref = RefStack(base)
             ref.apply(ev)
-            c = ref.canon()
+            c = ref.level1()
             if c not in classes:
                 classes.add(c)
                 shards.append({"part": "stack", "base": base, "root": [list(ev)]})
@@ -869,7 +956,7 @@ def describe(tier, seed, res):
 def replay(case):
     res = Result()
     if case.get("part") == "stack":
-        return check_history(case["base"], case["history"])
+        return check_history(case["base"], case["history"], case.get("lookups", True))
     styles = tuple((n, (tuple((a, bool(v)) for a, v in d[0]), d[1], d[2], d[3])) for n, d in case["styles"])
     check_config(styles, case["route"], case["theme_inherit"], case["read_inherit"], res)
     return [(k, v[2]) for k, v in sorted(res.violations.items())]
